@@ -242,7 +242,9 @@ where
                                         }
                                     }
                                     if sinks.load().is_empty() {
-                                        if let Some(source_talkback) = &*source_talkback.load() {
+                                        // (the talkback is forgotten with the subscription it belongs to: the
+                                        // next subscription may greet after further sinks have attached)
+                                        if let Some(source_talkback) = source_talkback.swap(None) {
                                             call!(
                                                 source_talkback,
                                                 Message::Terminate,
